@@ -27,6 +27,9 @@ def layout_config(endian='big', address_bits=16, origin=None, page_size=None, zo
     cfg['instructions']['ld16'] = {'bytecode': {'value': 0x20, 'size': 8},
                                    'operands': {'count': 1, 'operand_sets': {'list': ['imm16']}}}
     cfg['instructions']['nib'] = {'bytecode': {'value': 0xA, 'size': 4}}
+    cfg['operand_sets']['imm12'] = {'operand_values': {'n': {'type': 'numeric', 'argument': {'size': 12, 'byte_align': False}}}}
+    cfg['instructions']['ld12'] = {'bytecode': {'value': 0xB, 'size': 4},
+                                   'operands': {'count': 1, 'operand_sets': {'list': ['imm12']}}}
     # a macro whose steps are not whole bytes: two 4-bit instructions, each padded to its own byte
     cfg['macros'] = {'nn2': [{'instructions': ['nib', 'nib']}]}
     mz = []
